@@ -282,6 +282,8 @@ def _role(x) -> Optional[str]:
         return {0: "key", 1: "value"}.get(x.args[1])
     if isinstance(x, Sym) and x.op == "elemof" and "field_aliases" in repr(x) and "items" not in repr(x) and "values" not in repr(x):
         return "key"
+    if isinstance(x, Sym) and x.op == "elemof" and "field_aliases" in repr(x) and "'values'" in repr(x) and "items" not in repr(x):
+        return "value"  # mapping.values(), paired position by position with mapping.keys()
     if isinstance(x, Sym) and x.op == "item" and "field_aliases" in repr(x.args[0]):
         return "value"
     return None
